@@ -18,7 +18,7 @@ from vlib.dialects import ENCODERS
 
 ID = "C02"
 LEVEL = "exploration"
-BUDGET = {"quick": 75, "thorough": 900}
+BUDGET = {"quick": 200, "thorough": 1200}
 RULE = (
     "case = (encoder, options, module spec) as in C01, read with the default "
     "loader; 25% of cases are pvl.loads(pvl.dumps(m)) with no arguments. Oracle: "
@@ -51,14 +51,17 @@ def run_case(case):
     text = r[1]
     # the real default path, after the budgeted twin has shown it terminates
     try:
-        with backstop(60):
+        with backstop(300, cpu=True):
             if case.get("noargs"):
                 m = gv.build_module(case["spec"])
                 real = pvl.loads(pvl.dumps(m))
             else:
                 real = pvl.loads(text)
     except WallClockBackstop:
-        raise RuntimeError("inconclusive: wall-clock backstop hit in pvl.loads")
+        # (CPU time, not wall clock: the budgeted twin of this very load has returned)
+        return ("fail", f"C02/{case['enc']}/real-default-does-not-return",
+                f"pvl.loads(text) used 300 s of CPU time without returning; "
+                f"text={text[:300]!r}")
     except Exception as e:
         return ("fail", f"C02/{case['enc']}/real-default-raises/{type(e).__name__}",
                 f"pvl.loads(text) raised {e!r}; text={text!r}")
